@@ -132,3 +132,84 @@ PLANS["C05"] = dict(
         validate=dict(module="Trace_Verifier", cfg=trace_cfg(["verdict", "outcome", "results", "actions", "calls", "revshape", "revclass"])),
     )],
 )
+
+# ------------------------------------------------------------------ C09
+ALL_RULES = ["R1", "R2", "R3", "R4", "R5", "R6", "R7", "R8", "R9", "R10", "R11", "R12", "R13", "R14", "R15_17", "R18", "R19_23", "R24"]
+OCI_RULES = ["R25", "R26", "R27", "R28"]
+BLOB_RULES = ["R29", "R30"]
+
+
+def c09_select(kind):
+    def sel(cases, tier, seed):
+        # vacuity guard: every rule must be violated ALONE by some generated document
+        alone = set()
+        for c in cases:
+            if len(c["violated"]) == 1:
+                alone.add(c["violated"][0])
+        want = set(ALL_RULES + (OCI_RULES if kind == "oci" else BLOB_RULES))
+        missing = want - alone
+        if missing:
+            import vcheck
+            raise vcheck.Infra(f"C09/{kind}: no generated document violates only rule(s) {sorted(missing)} (vacuous generator)")
+        for c in cases:
+            c["in"] = c["in"]
+        return cases
+    return sel
+
+
+def c09_gen(kind):
+    return dict(module="MC_TrustPolicy_C09",
+                cfg=lambda tier, seed: mc_cfg(["Inv_Bases", "Inv_C09b", "Inv_Emit"], consts=[f'Kind = "{kind}"', "MaxEdits = 2"], extra=["VIEW View"]),
+                select=c09_select(kind))
+
+
+PLANS["C09"] = dict(
+    level_text="Valid(doc) is the conjunction of one named TLA+ predicate per structural rule; TLC enumerates every document reachable from valid "
+               "base documents by at most two generic edits (any field of any statement set to any atom of its alphabet, list elements added or "
+               "removed, statements deleted, version changed) for both document kinds, checks that valid documents yield integrity-enforcing "
+               "levels, and requires every rule to be violated alone by some document; every document is offered to the real Validate(), to the "
+               "JSON route and to the verifier constructor, and TLC validates acceptance and the yielded levels.",
+    level_note="Trusted: TLC, go-ldap DN parsing as used by the code (the atoms' concrete renderings are fixed in harness/drv_policy.go). "
+               "Documents listing the same scope twice in one statement are not judged (the statement leaves it open).",
+    rule="cases = all documents within 2 edits of 3 base documents per kind; non-trivial = document violates at least one rule; distinct = distinct abstract document",
+    exhaustive=True,
+    phases=[
+        dict(name="oci", gen=c09_gen("oci"), drive=dict(driver="policy-valid"),
+             validate=dict(module="Trace_TrustPolicy", cfg=trace_cfg(consts=['Mode = "valid"']))),
+        dict(name="blob", gen=c09_gen("blob"), drive=dict(driver="policy-valid"),
+             validate=dict(module="Trace_TrustPolicy", cfg=trace_cfg(consts=['Mode = "valid"']))),
+    ],
+)
+
+# ------------------------------------------------------------------ C08
+SCOPESETS_Q = '{<<"*">>, <<"r">>, <<"r/x">>, <<"rx">>, <<"r:5000">>, <<"r-dash">>, <<"r_us">>, <<"r", "r/x">>, <<"rx", "r:5000">>}'
+SCOPESETS_T = '{<<"*">>, <<"r">>, <<"r/x">>, <<"rx">>, <<"r:5000">>, <<"r-dash">>, <<"r_us">>}'
+
+
+def c08_gen(kind):
+    def cfg(tier, seed):
+        names = 'Names = {"n1", "n2", "n3", "n4"}' if tier == "thorough" else 'Names = {"n1", "n2", "n4"}'
+        if kind == "oci":
+            consts = ['Kind = "oci"', "MaxStmts = 3", 'Variant = "pairs"', names]
+        else:
+            consts = ['Kind = "blob"', "MaxStmts = 3", 'Variant = "singles"', names]
+        return mc_cfg(["Inv_Valid", "Inv_C08", "Inv_Unique", "Inv_ClonePrivate", "Inv_Emit"], consts=consts, extra=["PROPERTY Prop_DocFrame"])
+    return dict(module="MC_TrustPolicy_C08", cfg=cfg, select=take_all)
+
+
+PLANS["C08"] = dict(
+    level_text="TLC checks, for every valid document over a scope alphabet of near-identical repository paths (every permutation of its statements "
+               "is a distinct document) and every reference shape, that the code-shaped selection loop equals the declarative choice on the SET of "
+               "statements (hence order independence and uniqueness), and models select / mutate-returned-copy / select-again with the document as "
+               "a frame; every case is replayed on the real documents (and through verifier.Verify, where the reported enforcement map identifies "
+               "the applied statement), the returned statement is deep-mutated and selected again.",
+    level_note="Trusted: TLC; the mapping of abstract scope atoms to concrete near-identical strings is fixed in harness/drv_policy.go.",
+    rule="cases = (document, reference) pairs of MC_TrustPolicy_C08 for both kinds; non-trivial = several statements or a well-formed reference",
+    exhaustive=True,
+    phases=[
+        dict(name="oci", gen=c08_gen("oci"), drive=dict(driver="policy-select"),
+             validate=dict(module="Trace_TrustPolicy", cfg=trace_cfg(consts=['Mode = "select"']))),
+        dict(name="blob", gen=c08_gen("blob"), drive=dict(driver="policy-select"),
+             validate=dict(module="Trace_TrustPolicy", cfg=trace_cfg(consts=['Mode = "select"']))),
+    ],
+)
